@@ -106,7 +106,7 @@ fn lit(v: &RVal) -> String {
 
 pub fn run(ctx: &Ctx, sink: &mut Sink) {
     let specs = fn_specs();
-    let n = ctx.budget(60_000, 1_000_000);
+    let n = ctx.budget(60_000, 10_000_000);
     for i in 0..n {
         if !ctx.mine(i) {
             continue;
